@@ -318,6 +318,34 @@ theorem in_time_no_removal (st : Static) (ops : List Op) (hnr : NoRemove ops) :
   have := foldl_step_tinv st ops GState.init hnr (init_inv st) h0
   exact (addGlue_all_done st _ this.1 this.2).2
 
+/-! ### modules still being imported -/
+
+theorem visitI_inv (st : Static) (init : List Mod) (g : GState) (m : Mod) (h : SInv st g) : SInv st (visitI st init g m) := by
+  unfold visitI
+  split
+  · exact h
+  · exact visitR_inv st g m h
+
+theorem fold_visitI_inv (st : Static) (init names : List Mod) (g : GState) (h : SInv st g) :
+    SInv st (names.foldl (visitI st init) g) := by
+  induction names generalizing g with
+  | nil => exact h
+  | cons m ms ih => exact ih _ (visitI_inv st init g m h)
+
+theorem addGlueI_inv (st : Static) (g : GState) (init : List Mod) (h : SInv st g) : SInv st (addGlueI st g init) := by
+  unfold addGlueI
+  split
+  · exact sinv_log_returned st g h
+  · have := fold_visitI_inv st init g.present g h
+    obtain ⟨nd, rd, mb, bo⟩ := sinv_log_returned st _ this
+    exact ⟨nd, rd, mb, bo⟩
+
+/-- An initializing module is left completely alone by the scan: nothing popped, nothing run for it. -/
+theorem visitI_skips (st : Static) (init : List Mod) (g : GState) (m : Mod) (hm : init.contains m = true) :
+    visitI st init g m = g := by
+  unfold visitI
+  rw [if_pos hm]
+
 /-! ### scans during which modules appear -/
 
 theorem insertAll_prefix (p ms : List Mod) : ∃ t, insertAll p ms = p ++ t := by
